@@ -1,6 +1,6 @@
 /-!
-  Specification of C14: `isin` and `unique` with exact set semantics, over any value type `α` with decidable equality
-  and a total order given as `le : α → α → Bool` (numbers: `≤`; fixed and indexed strings: `bytesLe`, the
+  Specification of C14: `isin` and `unique` with exact set semantics, over any value type `α` with a (lawful) equality
+  test `==` and a total order given as `le : α → α → Bool` (numbers: `≤`; fixed and indexed strings: `bytesLe`, the
   lexicographic order of their UTF-8 bytes).
 -/
 namespace Exetera.Spec
@@ -17,17 +17,17 @@ def lexCmp : List UInt8 → List UInt8 → Int
 def bytesLe (a b : List UInt8) : Bool := decide (lexCmp a b ≤ 0)
 
 section
-variable {α : Type} [DecidableEq α]
+variable {α : Type} [BEq α]
 
 /-- `field.isin(tests)`: row `r` is `true` iff the row's value is a member of `tests` -/
-def isin (col tests : List α) : List Bool := col.map (fun x => decide (x ∈ tests))
+def isin (col tests : List α) : List Bool := col.map (fun x => tests.contains x)
 
 variable (le : α → α → Bool)
 
 /-- insert `x` into an ascending duplicate-free list, keeping it ascending and duplicate-free -/
 def insertU (x : α) : List α → List α
   | [] => [x]
-  | y :: ys => if x = y then y :: ys else if le x y then x :: y :: ys else y :: insertU x ys
+  | y :: ys => if x == y then y :: ys else if le x y then x :: y :: ys else y :: insertU x ys
 
 /-- the sorted distinct values of a column -/
 def uniques (col : List α) : List α := col.foldr (insertU le) []
